@@ -927,9 +927,10 @@ class Vector():
 
 	def _unary_operation(self, op_func, op_name: str):
 		"""Helper function to handle unary operations on each element."""
+		values = tuple(None if x is None else op_func(x) for x in self)
 		return Vector(
-			tuple(op_func(x) for x in self),
-			dtype=self._dtype,
+			values,
+			dtype=infer_dtype(values) if values else self._dtype,
 			name=self._name,
 			as_row=self._display_as_row
 		)
